@@ -220,10 +220,42 @@ func checkISeq(ctx *pbt.Ctx, c ISeq) error {
 		recs = append(recs, rec)
 	}
 
-	// everything examined after the last step
+	// everything examined after the last step: first all the kept parse results
+	// (before anything is parsed again), then every output once more
+	cmp := func(at, what string, r iRecord, got *bscript.InscriptionArgs, err error) error {
+		if err != nil || got == nil {
+			return fmt.Errorf("%s: %s: failed: %v", at, what, err)
+		}
+		if got.LockingScriptPrefix == nil || !bytes.Equal(*got.LockingScriptPrefix, r.prefix) {
+			return fmt.Errorf("%s: %s: prefix differs from the 25-byte prefix inscribed", at, what)
+		}
+		if got.ContentType != string(r.ct) {
+			if len(r.ct) == 0 && got.ContentType == "\x00" && ctx.Known("L33") {
+				// recorded finding: an empty item comes back as the single byte 00
+			} else {
+				return fmt.Errorf("%s: %s: content type %s came back as %s", at, what, short(r.ct), short([]byte(got.ContentType)))
+			}
+		}
+		if !bytes.Equal(got.Data, r.dat) {
+			if len(r.dat) == 0 && bytes.Equal(got.Data, []byte{0}) && ctx.Known("L33") {
+				// recorded finding, as above
+			} else {
+				return fmt.Errorf("%s: %s: data %s came back as %s", at, what, short(r.dat), short(got.Data))
+			}
+		}
+		return nil
+	}
+	where := func(r iRecord) string {
+		return fmt.Sprintf("after the last step: inscription of step %d (%s)", r.step, c.Steps[r.step].Via)
+	}
+	for _, r := range recs {
+		if err := cmp(where(r), "the result of ParseInscription kept since that step", r, r.parsed, r.perr); err != nil {
+			return err
+		}
+	}
 	nontrivial := false
 	for _, r := range recs {
-		at := fmt.Sprintf("after the last step: inscription of step %d (%s)", r.step, c.Steps[r.step].Via)
+		at := where(r)
 		out := r.tx.Outputs[r.idx]
 		if out.Satoshis != 1 {
 			return fmt.Errorf("%s carries %d satoshis", at, out.Satoshis)
@@ -233,31 +265,8 @@ func checkISeq(ctx *pbt.Ctx, c ISeq) error {
 			return fmt.Errorf("%s: locking script %s does not carry prefix ..%x, ct %s, data %s: %v", at, short(s), r.prefix[3:7], short(r.ct), short(r.dat), err)
 		}
 		again, aerr := out.LockingScript.ParseInscription()
-		for _, p := range []struct {
-			what string
-			got  *bscript.InscriptionArgs
-			err  error
-		}{{"the result of ParseInscription kept since that step", r.parsed, r.perr}, {"ParseInscription now", again, aerr}} {
-			if p.err != nil || p.got == nil {
-				return fmt.Errorf("%s: %s: failed: %v", at, p.what, p.err)
-			}
-			if p.got.LockingScriptPrefix == nil || !bytes.Equal(*p.got.LockingScriptPrefix, r.prefix) {
-				return fmt.Errorf("%s: %s: prefix differs from the 25-byte prefix inscribed", at, p.what)
-			}
-			if p.got.ContentType != string(r.ct) {
-				if len(r.ct) == 0 && p.got.ContentType == "\x00" && ctx.Known("L33") {
-					// recorded finding: an empty item comes back as the single byte 00
-				} else {
-					return fmt.Errorf("%s: %s: content type %s came back as %s", at, p.what, short(r.ct), short([]byte(p.got.ContentType)))
-				}
-			}
-			if !bytes.Equal(p.got.Data, r.dat) {
-				if len(r.dat) == 0 && bytes.Equal(p.got.Data, []byte{0}) && ctx.Known("L33") {
-					// recorded finding, as above
-				} else {
-					return fmt.Errorf("%s: %s: data %s came back as %s", at, p.what, short(r.dat), short(p.got.Data))
-				}
-			}
+		if err := cmp(at, "ParseInscription now", r, again, aerr); err != nil {
+			return err
 		}
 		if len(r.ct) > 0 && len(r.dat) > 0 {
 			nontrivial = true
